@@ -370,7 +370,7 @@ StepLoad(ev) ==
      /\ LET doRef == IOEnv.SEQ_REFINE = "1" /\ ok
             rows == Rows(song)  lt == LoopTicks(song)
             us(x) == IF x = -1 THEN -1000000 ELSE x
-            mls == us(LoopTimeUs(song, rows, lt.st, lt.invalid))  mle == us(LoopTimeUs(song, rows, lt.et, lt.invalid))
+            mls == us(LoopTimeUs(song, rows, lt.st, lt.invalid))  mle == us(LoopEndTimeUs(song, rows, lt))
             dr == doRef /\ (mls # ev.ls \/ mle # ev.le)
         IN drift' = IF dr /\ Len(drift) < 4 THEN Append(drift, [l |-> l, x |-> exec, e |-> "Load", d |-> ToString(<<"model-ls-le", mls, mle, "real", ev.ls, ev.le>>)]) ELSE drift
      /\ fails' = AddFails(Tag("C07", f, ev, ""))
@@ -430,7 +430,8 @@ StepPlayNormal(ev) ==
       fd == IF doRef THEN ModelVsReal(mrun, realLog, cfg.hooks) ELSE 0
       dr == fd # 0
       det == ToString(<<"loop", li, "n", cfg.loopN, "hooks", EntriesOf(ev.calls, "h"), "nLS", Count(EntriesOf(ev.calls, "h"), LAMBDA x : x[3] = 1), "times", [i \in DOMAIN D |-> D[i][2]]>>)
-      fm == (IF ev.trunc = 0 THEN ChanMaskFails(ev, song, cfg) ELSE {}) \cup
+      \* (tapcut: the harness stopped recording tap entries of this play after 6000 of them)
+      fm == (IF ev.trunc = 0 /\ "tapcut" \notin DOMAIN ev THEN ChanMaskFails(ev, song, cfg) ELSE {}) \cup
             (IF full /\ ~cfg.loopEn /\ ev.trunc = 0 /\ ev.atend = 1 /\ "s" \in DOMAIN ev THEN PlayCtlFails(ev, song, cfg) ELSE {})
       f8 == IF pos.moved /\ ~cfg.loopEn /\ ev.trunc = 0 /\ ev.steps = <<>> THEN PlayAfterSeekFails(ev, song, cfg, pos.t)
             ELSE IF afterSeek /\ cfg.loopEn /\ cfg.loopN >= 0 /\ ev.trunc = 0 /\ ev.steps = <<>> /\ "partial" \notin DOMAIN ev
